@@ -202,6 +202,15 @@ class ExecResolve(ExecCall):
             env[n] = self.coerce_param(bound[n], k)
         callid = self.next_call_id(f"pre:{c.name}")
         spec_call = self.spec_mode > 0
+        if not spec_call:
+            # an argument bound to a parameter that the contract declares non-Optional must not be None: otherwise the callee's typing
+            # assumptions would silently become assumptions about the CALLER's state (and prune the path)
+            for n, k in c.params.items():
+                v = env[n]
+                if isinstance(k, tuple) and k[0] in ("ref", "dict") and isinstance(v, V) and v.t.sort() == w.Ref \
+                        and not (n == "self" and recv is not None and v is recv):
+                    if not z3.is_true(z3.simplify(v.t != w.null)):
+                        self.oblige("safe", st, v.t != w.null, f"argument {n} of {c.name} is not None", name=self.next_call_id("none-arg"))
         # requires
         req_terms = []
         sreq = st
